@@ -141,9 +141,26 @@ func installBody(r *explore.Run, rep *report.R, sc string, ci, flags, maxPerm in
 	vmap.Order = nil
 	constraint := constraintAlphabet[ci]
 	tags := chooseTags(r, maxPerm)
-	r.Logf("install: constraint=%q tags=%v flags=%d", constraint, tags, flags)
-	w := newWorld([]v1beta1.LockPackage{parent(1, constraint)}, nil, tags, flags)
+	// An unrelated package with the same repository path in another registry
+	// is installed (and in the lock): it is neither the missing dependency
+	// nor to be touched.
+	const namesakeSrc, namesakeObj, namesakePkg = "registry.other.example/acme/dep", "other-registry-dep", "registry.other.example/acme/dep:v1.1.0"
+	namesake := r.Bool("namesake-in-another-registry")
+	r.Logf("install: constraint=%q tags=%v flags=%d namesake=%v", constraint, tags, flags, namesake)
+	lockPkgs := []v1beta1.LockPackage{parent(1, constraint)}
+	var existing []*unstructured.Unstructured
+	if namesake {
+		lockPkgs = append(lockPkgs, v1beta1.LockPackage{Name: "other-registry-dep-rev", Type: &providerType, Source: namesakeSrc, Version: "v1.1.0", Dependencies: []v1beta1.Dependency{}})
+		existing = append(existing, providerPackage(namesakeObj, namesakePkg))
+	}
+	w := newWorld(lockPkgs, existing, tags, flags)
 	o := w.reconcile(r, "resolver/install")
+	if namesake {
+		if got := o.pkgs["Provider/"+namesakeObj]; got != namesakePkg {
+			r.Failf("install/namesake-in-another-registry-changed", "missing dependency %s, constraint %q: the resolver changed the unrelated package %s from %q to %q", depSrc, constraint, namesakeObj, namesakePkg, got)
+		}
+		delete(o.pkgs, "Provider/"+namesakeObj)
+	}
 	r.Logf("observed %s", o)
 	ref := refInstall(tags, constraint)
 	ctx := fmt.Sprintf("missing dependency, constraint %q, tags %v, flags %d", constraint, tags, flags)
@@ -171,7 +188,7 @@ func installBody(r *explore.Run, rep *report.R, sc string, ci, flags, maxPerm in
 	}
 	nt := ""
 	if !ref.nothing {
-		nt = report.Hash("install", constraint, fmt.Sprint(tags))
+		nt = report.Hash("install", constraint, fmt.Sprint(tags), namesake)
 	}
 	evalCase(rep, sc, report.Hash("install", got, o.resolved, o.err != nil), nt)
 	if nt != "" && len(tags) >= 3 && len(ref.tags) > 0 && wantSample(rep, "install") {
